@@ -348,7 +348,14 @@ def _intify(tree):
 
 class Ctx:
     def __init__(self, case):
-        self.fs = SimFS()
+        # documents live in a real scratch directory (the process's working directory), every open() of the code under
+        # test goes through SimFS, which injects the faults
+        self.scratch = tempfile.mkdtemp(prefix="frame-verif-", dir=os.environ.get("VERIF_SCRATCH") or ("/dev/shm" if os.path.isdir("/dev/shm") else None))
+        os.makedirs(os.path.join(self.scratch, "fs"))
+        os.makedirs(os.path.join(self.scratch, "tmp"))
+        tempfile.tempdir = os.path.join(self.scratch, "tmp")
+        self.fs = SimFS(mirror=os.path.join(self.scratch, "fs"))
+        os.chdir(self.fs.mirror)
         self.viol = []
         self.hist = []
         self.probes = {}
@@ -362,7 +369,6 @@ class Ctx:
         self.trees = {}       # slot -> tree it was loaded from (for fresh reloads)
         self.nfile = 0
         self.docs = 0
-        self.scratch = None
         self.rnd = SimRandom(1234)
 
     def probe(self, name, n=1):
@@ -1150,9 +1156,6 @@ def _op_legal(ctx, o):
     if any(m.num_rectangles == 0 or m.is_terminal for m in net.modules):
         return "skipped(outside the legaliser's domain)"
     key = {"producer": "legalfloor.Model.get_netlist"}
-    if ctx.scratch is None:
-        ctx.scratch = tempfile.mkdtemp(prefix="frame-verif-", dir=os.environ.get("VERIF_SCRATCH") or ("/dev/shm" if os.path.isdir("/dev/shm") else None))
-        tempfile.tempdir = ctx.scratch
     before = canon(sem.netlist_sem(net, roles=True, order_rects=True))
     try:
         ml, al, xl, yl, wl, hl, hyper, og = LF.netlist_to_utils(net)
@@ -1263,8 +1266,8 @@ def run_case(case):
             ctx.sig.append((kind, o.get("obj") or o.get("type") or "", o.get("to") or o.get("via") or "", out.split("(")[0],
                             (o.get("fault") or {}).get("kind", "")))
     finally:
-        if ctx.scratch:
-            shutil.rmtree(ctx.scratch, ignore_errors=True)
+        os.chdir("/")
+        shutil.rmtree(ctx.scratch, ignore_errors=True)
     return {
         "violations": ctx.viol,
         "steps": len(ctx.hist),
